@@ -13,11 +13,75 @@ var c06Codes = []int{100, 101, 102, 103, 199, 200, 201, 202, 204, 206, 299, 300,
 // recording writer ("first WriteHeader wins") shows.  On a real connection net/http sends 1xx
 // headers as informational and lets a final status follow, so programs containing 1xx codes are
 // kept away from the real-server round trip (see c06RoundTrip).
+//
+// Round 5: codes OUTSIDE 100..999 (0 = the zero value of an int status field, 1, 99, 1000, 1001,
+// 65536, -1, -200).  echo.Response hands them to the underlying writer like any other code; a
+// writer that accepts them "sends" them (Status must say so), net/http's writer and
+// httptest.ResponseRecorder refuse them with a panic before anything is sent (case flag Strict).
+var c06BadCodes = []int{0, 0, 0, 1, 99, 99, 1000, 1000, 1001, 65536, -1, -200}
+
 func c06Code(r *rand.Rand) int {
-	if r.Intn(4) == 0 {
+	switch r.Intn(12) {
+	case 0, 1, 2:
 		return 200 + r.Intn(400)
+	case 3:
+		return c06BadCodes[r.Intn(len(c06BadCodes))]
 	}
 	return c06Codes[r.Intn(len(c06Codes))]
+}
+
+// templates around a status write with a code outside 100..999: alone, before and after a valid
+// one, after a preset, inside every kind of helper, followed by implicit commits (which reuse
+// the pending invalid status when the writer refused it)
+func c06AdversarialBadCode(r *rand.Rand) []c06Op {
+	bad := c06BadCodes[r.Intn(len(c06BadCodes))]
+	bad2 := c06BadCodes[r.Intn(len(c06BadCodes))]
+	ok := c06Code(r)
+	h := 1 + r.Intn(3)
+	helper := func(c int) c06Op {
+		switch r.Intn(10) {
+		case 0:
+			return c06Op{K: "wh", C: c}
+		case 1:
+			return c06Op{K: "nc", C: c}
+		case 2:
+			return c06Op{K: "blob", C: c, CT: []int{1, 2, 3, 7}[r.Intn(4)], N: r.Intn(4)}
+		case 3:
+			return c06Op{K: "json", C: c, N: r.Intn(3)}
+		case 4:
+			return c06Op{K: "jsonpretty", C: c, N: 1}
+		case 5:
+			return c06Op{K: "stream", C: c, Chunks: []int{2, 1}}
+		case 6:
+			return c06Op{K: "xmlv", C: c, N: 2}
+		case 7:
+			return c06Op{K: "jsonpv", C: c, H: 1, N: 1}
+		case 8:
+			return c06Op{K: "render", C: c, N: 2, Mode: 2}
+		}
+		return c06Op{K: "redir", C: c}
+	}
+	tpl := [][]c06Op{
+		{helper(bad)},
+		{helper(bad), {K: "nc", C: 204}},
+		{helper(bad), {K: "w", N: 2}},
+		{helper(bad), {K: "fl"}, {K: "wh", C: ok}},
+		{helper(bad), helper(bad2), helper(ok)},
+		{helper(ok), helper(bad)},
+		{{K: "json", C: bad, Bad: true}, {K: "w", N: 1}},
+		{{K: "json", C: bad, Bad: true}, {K: "copy", Chunks: []int{0, 2}}, {K: "rcfl"}},
+		{{K: "json", C: ok, Bad: true}, helper(bad), {K: "w", N: 1}},
+		{{K: "af", H: h}, helper(bad), {K: "w", N: 1}, helper(ok)},
+		{{K: "attach", N: 1, Bad: true}, helper(bad), {K: "blob", C: ok, CT: 1, N: 1}},
+		{{K: "w", N: 0}, helper(bad)},
+		{helper(bad), {K: "file", N: 2}},
+		{helper(bad), {K: "hijack"}, {K: "unwrap"}, helper(bad2), {K: "fefl"}},
+	}
+	ops := append([]c06Op(nil), tpl[r.Intn(len(tpl))]...)
+	for k := r.Intn(3); k > 0; k-- {
+		ops = append(ops, c06GenOp(r))
+	}
+	return ops
 }
 
 func c06Size(r *rand.Rand) int {
@@ -340,6 +404,7 @@ func c06Alphabet() []c06Op {
 		{K: "json", C: 500, N: 2}, {K: "json", C: 418, Bad: true}, {K: "blob", C: 202, CT: 1, N: 2}, {K: "nc", C: 204},
 		{K: "redir", C: 302}, {K: "stream", C: 206, Chunks: []int{2, 1}}, {K: "copy", Chunks: []int{1, 2}},
 		{K: "jsonpv", C: 201, H: 2, Bad: true}, {K: "file", N: 3}, {K: "xmlv", C: 203, N: 2},
+		{K: "nc", C: 0}, {K: "blob", C: 1000, CT: 1, N: 1},
 	}
 }
 
@@ -347,7 +412,7 @@ func c06Gen(r *rand.Rand, tier string) []any {
 	var out []any
 	add := func(prev [][]c06Op, ops []c06Op) {
 		c := &c06Case{Cap: -1, Prev: prev, Ops: ops, Fresh: r.Intn(5) == 0, RF: r.Intn(2) == 0,
-			NF: r.Intn(4) == 0, HJ: r.Intn(2) == 0, Pretty: r.Intn(4) == 0}
+			NF: r.Intn(4) == 0, HJ: r.Intn(2) == 0, Pretty: r.Intn(4) == 0, Strict: r.Intn(2) == 0}
 		if len(prev) > 0 {
 			c.Fresh = r.Intn(2) == 0 // Reset on one context / the pool, half and half
 		}
@@ -386,7 +451,7 @@ func c06Gen(r *rand.Rand, tier string) []any {
 	var rec func(prefix []c06Op, l int)
 	rec = func(prefix []c06Op, l int) {
 		if len(prefix) > 0 {
-			out = append(out, &c06Case{Cap: -1, Ops: append([]c06Op(nil), prefix...), RF: len(out)%2 == 0, NF: len(out)%5 == 0, HJ: len(out)%3 == 0})
+			out = append(out, &c06Case{Cap: -1, Ops: append([]c06Op(nil), prefix...), RF: len(out)%2 == 0, NF: len(out)%5 == 0, HJ: len(out)%3 == 0, Strict: len(out)%2 == 1})
 		}
 		if l == 0 {
 			return
@@ -434,6 +499,13 @@ func c06Gen(r *rand.Rand, tier string) []any {
 	for i := 0; i < nAdv; i++ {
 		add(nil, c06Adversarial(r))
 	}
+	for i := 0; i < nAdv/2; i++ {
+		var prev [][]c06Op
+		if i%5 == 0 {
+			prev = append(prev, c06AdversarialBadCode(r))
+		}
+		add(prev, c06AdversarialBadCode(r))
+	}
 	for i := 0; i < nSeq; i++ {
 		prev, ops := c06AdversarialSeq(r)
 		if r.Intn(4) == 0 {
@@ -454,6 +526,9 @@ func c06Gen(r *rand.Rand, tier string) []any {
 			for k := range ops {
 				if ops[k].C >= 100 && ops[k].C <= 199 {
 					ops[k].C += 100 // no informational codes on a real connection
+				}
+				if c06Invalid(ops[k].C) && c06CarriesStatus(ops[k]) {
+					ops[k].C = 200 + (ops[k].C%400+400)%400 // nor codes net/http refuses
 				}
 				if ops[k].K == "hijack" {
 					ops[k].K = "unwrap" // a real connection would really be taken away
@@ -541,6 +616,11 @@ func c06Shrink(ci any) []any {
 		d.HJ = false
 		out = append(out, d)
 	}
+	if c.Strict {
+		d := cp()
+		d.Strict = false
+		out = append(out, d)
+	}
 	if c.Pretty {
 		d := cp()
 		d.Pretty = false
@@ -617,7 +697,7 @@ func c06Mutate(r *rand.Rand, ci any) []any {
 func init() {
 	register(&Prop{
 		ID:             "C06",
-		Rule:           "handler programs over {WriteHeader, Write, Flush, Before, After, JSON / JSONPretty (serialisable or not), String/HTML/JSONBlob/Blob, NoContent, Redirect (valid and invalid codes), Stream, XMLBlob, JSONPBlob, JSONP (serialisable or not), XML / XMLPretty (encodable or not), Render (no renderer / failing renderer / working renderer), File / FileFS+StaticFileHandler / Attachment / Inline (file of n bytes, empty file, missing file, directory with and without index.html, file without Seek), Hijack, flush through http.ResponseController, flush through the FlushError convention (interface assertion, else Flush), Unwrap, io.Copy into the Response from a source without WriteTo}, run as ONE request or as the last of 2-4 requests served on the same recycled context (a third of the random cases; Echo.ServeHTTP + sync.Pool, or one context with Context.Reset); exhaustive over an 18-op alphabet up to length 3 (thorough: 4, plus every program of length 5 over a 10-op core alphabet), random programs of 1-12 ops (thorough: 1-24), adversarial single-request templates (flush first, commit with zero body bytes then JSON/JSONPretty, every helper after commit, unserialisable JSON then write, unserialisable JSONP/XML then WriteHeader, Attachment of a missing file then a commit, Render without a page, hooks around multi-write helpers, redirect code bounds, Hijack before/after commit), adversarial request sequences (an earlier request ends uncommitted with a preset status and/or hooks, or committed with a non-200 status / a large Size / hooks; the following request commits implicitly or registers no hooks and writes); status codes 200-599 and 1xx (100-103, 199; echo.Response commits with them like with any other code); a quarter of the cases with a writer capacity at 0 / total-1 / total / random so writes come back short; underlying writers in all 8 combinations of {http.Flusher (absent in a quarter of the cases: Flush commits, then panics, the harness recovers per step), io.ReaderFrom (half), http.Hijacker (half)}; a quarter with the request URL /?pretty; a fifth (sequences: half) through Echo.NewContext/Context.Reset (Status starts at 0) instead of ServeHTTP; thorough: 4000 single-request programs additionally behind a real httptest.Server (client status/body length vs Response.Status/Size; no 1xx codes and no Hijack there); Response fields and the recording writer are sampled after EVERY step of EVERY request; the first-status clause is judged against the status preset by THIS request's program text (tracked by the harness, not read from Response.Status); non-trivial = at least one operation after the headers went out AND (a hook registered, or flush as first operation of the last request, or a short write, or >=4 distinct tags), OR a committed last request after an earlier request that left hooks / a preset status / a non-trivial committed response on the context; distinct = distinct model op lines",
+		Rule:           "handler programs over {WriteHeader, Write, Flush, Before, After, JSON / JSONPretty (serialisable or not), String/HTML/JSONBlob/Blob, NoContent, Redirect (valid and invalid codes), Stream, XMLBlob, JSONPBlob, JSONP (serialisable or not), XML / XMLPretty (encodable or not), Render (no renderer / failing renderer / working renderer), File / FileFS+StaticFileHandler / Attachment / Inline (file of n bytes, empty file, missing file, directory with and without index.html, file without Seek), Hijack, flush through http.ResponseController, flush through the FlushError convention (interface assertion, else Flush), Unwrap, io.Copy into the Response from a source without WriteTo}, run as ONE request or as the last of 2-4 requests served on the same recycled context (a third of the random cases; Echo.ServeHTTP + sync.Pool, or one context with Context.Reset); exhaustive over a 20-op alphabet up to length 3 (thorough: 4, plus every program of length 5 over a 10-op core alphabet), random programs of 1-12 ops (thorough: 1-24), adversarial single-request templates (flush first, commit with zero body bytes then JSON/JSONPretty, every helper after commit, unserialisable JSON then write, unserialisable JSONP/XML then WriteHeader, Attachment of a missing file then a commit, Render without a page, hooks around multi-write helpers, redirect code bounds, Hijack before/after commit), adversarial request sequences (an earlier request ends uncommitted with a preset status and/or hooks, or committed with a non-200 status / a large Size / hooks; the following request commits implicitly or registers no hooks and writes); status codes 200-599, 1xx (100-103, 199; echo.Response commits with them like with any other code) and, in 1 of 12 random status writes plus a template family, codes OUTSIDE 100..999 (0 = zero-valued status field, 1, 99, 1000, 1001, 65536, -1, -200) on an underlying writer that either accepts every code (Status must equal what it sent) or — half of the cases whose programs register no before-hook — refuses such a code the way net/http and httptest.ResponseRecorder do (first WriteHeader panics before anything is recorded: the operation is aborted, nothing is out, Committed must stay false, the refused status stays pending; the harness recovers per step); a quarter of the cases with a writer capacity at 0 / total-1 / total / random so writes come back short; underlying writers in all 8 combinations of {http.Flusher (absent in a quarter of the cases: Flush commits, then panics, the harness recovers per step), io.ReaderFrom (half), http.Hijacker (half)}; a quarter with the request URL /?pretty; a fifth (sequences: half) through Echo.NewContext/Context.Reset (Status starts at 0) instead of ServeHTTP; thorough: 4000 single-request programs additionally behind a real httptest.Server (client status/body length vs Response.Status/Size; no 1xx codes and no Hijack there); Response fields and the recording writer are sampled after EVERY step of EVERY request; the first-status clause is judged against the status preset by THIS request's program text (tracked by the harness, not read from Response.Status); non-trivial = at least one operation after the headers went out AND (a hook registered, or flush as first operation of the last request, or a short write, or >=4 distinct tags), OR a committed last request after an earlier request that left hooks / a preset status / a non-trivial committed response on the context; distinct = distinct model op lines",
 		New:            func() any { return &c06Case{} },
 		Gen:            c06Gen,
 		Run:            c06Run,
